@@ -21,7 +21,7 @@ MANIFEST = {
              'vs. skipped fields, non-finite sentinels vs. JSON) are listed in known_findings.json.'),
 }
 EXPLANATION = 'Attribute / format-table / write-set inventories that the round trip needs; each violation names the type.field or function.'
-RULES = ['C17-1.formats', 'C17-1.init', 'C17-2.bincode', 'C17-3.skip', 'C17-4.midrun', 'C17-5.nonfinite', 'C17-6.linkidx', 'C17-7.nestedinit', 'C17-8.validators', 'C17-9.truncate']
+RULES = ['C17-1.formats', 'C17-1.init', 'C17-2.bincode', 'C17-3.skip', 'C17-4.midrun', 'C17-5.nonfinite', 'C17-6.linkidx', 'C17-7.nestedinit', 'C17-8.validators', 'C17-9.truncate', 'C17-10.derived']
 ASSUMPTIONS = ['serde_yaml / serde_json / bincode behave as documented']
 
 STEP_ROOTS = ['LocomotiveSimulation::step', 'ConsistSimulation::step', 'SetSpeedTrainSim::step', 'SpeedLimitTrainSim::step',
@@ -34,6 +34,7 @@ def serde_attrs(f):
 
 def run(ctx):
     truncation(ctx)
+    derived_refresh(ctx)
     # loading runs init() -> validate(): a validator that rejects what its sibling (the borrowed / owned / legacy form of the same
     # data) accepts makes a saved object unreadable — shared with C16-6
     from .common import RuleProxy
@@ -603,3 +604,42 @@ def truncation(ctx):
                     opens += 1
         ctx.check(opens >= 1, R, 'SerdeAPI::to_file|opens', 'to_file opens its target through File::create or a truncating OpenOptions chain (checked above)', 'no file-opening call found under to_file', ctx.where(tb))
     ctx.floor('functions opening files through OpenOptions::write', n, 2)
+
+
+def derived_refresh(ctx):
+    """C17-10.derived: loading runs init(), and init() of some types recomputes derived state through a `&mut self` refresher
+    (found by reading every `SerdeAPI::init`: a call to a method of the same type that takes only `&mut self` and is named
+    set_* / update_* / calc_*).  A re-loaded object therefore always carries the FRESH value.  For the live object to agree with
+    its own saved copy, every other function that calls the refresher must call it on every Ok path (a conditional refresh —
+    "only if still zero" — leaves the live object stale after its inputs change, while any copy read back is fresh)."""
+    import re as _re
+    from sa.cfg import CFG
+    R = 'C17-10.derived'
+    prog = ctx.prog
+    refreshers = {}
+    n_init = 0
+    for f, b in sorted(prog.by_id.items()):
+        if not f.endswith('SerdeAPI>::init') or b.test:
+            continue
+        n_init += 1
+        tn = f.split(' as ')[0].lstrip('<')
+        for bn, t in CFG(b).call_sites():
+            for x in prog.resolve(t.callee):
+                if x.fid.startswith(tn + '::') and x.nparams == 1 and x.params and x.params[0][1].startswith('&mut') and _re.search(r'::(set|update|calc)_\w+$', x.fid):
+                    refreshers.setdefault(x.fid, []).append(f)
+    ctx.floor('SerdeAPI::init bodies read', n_init, 20)
+    ctx.floor('derived-state refreshers called by init()', len(refreshers), 1)
+    for rf, inits in sorted(refreshers.items()):
+        n = 0
+        for b in prog.bodies:
+            if b.kind != 'fn' or b.test or b.fid in inits or b.fid == rf:
+                continue
+            cfg = CFG(b)
+            sites = [bn for bn, t in cfg.call_sites() if any(x.fid == rf for x in prog.resolve(t.callee))]
+            if not sites:
+                continue
+            n += 1
+            ok = cfg.every_ok_path_passes(sites)
+            ctx.check(ok, R, '%s in %s' % (rf, b.fid), 'refreshed on every Ok path (as init() does on load)',
+                      'the refresh is conditional here, but unconditional in %s: a live object and its re-loaded copy can carry different values' % inits, ctx.where(b))
+        ctx.check(n >= 1, R, rf + '|used', '%d other function(s) call the refresher' % n, 'nothing but init() calls it: the live object never refreshes this state', None)
